@@ -340,7 +340,8 @@ class DetachedServer(ServerBase):
         _logger.info(f'Cancelling: {request}.')
 
         # Remove task from server data
-        mailbox_id, client_conn = self.tasks[request]
+        mailbox_id, client_conn = self.tasks.pop(request)
+        self.mailbox_to_task_dict.pop(mailbox_id, None)
         self.mailboxes.pop(mailbox_id)
         if client_conn in self.clients:
             self.clients[client_conn].remove(request)
